@@ -25,6 +25,7 @@ func init() {
 			{ID: "C18-R8", Doc: "the exact-shape clauses of the documented schemas are each rejected by some typecheck guard; the context parameter is recognised by type identity", Run: c18r8},
 			{ID: "C18-R9", Doc: "element-wise type comparisons start at the first column", Run: c18r9},
 			{ID: "C18-R10", Doc: "Fold expects func(acc, all columns after the first)", Run: c18r10},
+			{ID: "C18-R11", Doc: "a key column must be hashable and comparable: canMakeCombiningFrame records a column when either check fails", Run: c18r11},
 		},
 	})
 }
